@@ -190,6 +190,38 @@ func runC09(c *fw.Ctx) {
 				snap = wmpt.New(t.CopyRoot(r.Intn(8)), db)
 				snapModel = m.Copy()
 				c.Tracef("snapshot view via CopyRoot")
+				if r.Intn(2) == 0 && len(snapModel) > 0 {
+					// the view is a fork: it is changed on its own (deletes that merge nodes, an overwrite); neither side may
+					// notice the other's changes
+					fk := snapModel.Keys()
+					for i := 0; i < 1+r.Intn(2) && len(fk) > 0; i++ {
+						k := fk[r.Intn(len(fk))]
+						if _, ok := snapModel[k]; !ok {
+							continue
+						}
+						c.Tracef("fork: del %s", wl.KeyStr([]byte(k)))
+						if err := wl.Upd(snap, []byte(k), nil, 0); err != nil {
+							fail("delete on a CopyRoot fork failed: %v", err)
+							return
+						}
+						delete(snapModel, k)
+					}
+					if fk2 := snapModel.Keys(); len(fk2) > 0 {
+						k := fk2[r.Intn(len(fk2))]
+						v, w := g.Value()
+						c.Tracef("fork: upd %s=%s/%d", wl.KeyStr([]byte(k)), v, w)
+						if err := wl.Upd(snap, []byte(k), v, w); err != nil {
+							fail("update on a CopyRoot fork failed: %v", err)
+							return
+						}
+						snapModel[k] = wl.Entry{Val: v, W: w}
+					}
+					if f := wl.CheckFull(t, m, true); f != "" {
+						fail("changes made on a CopyRoot fork show in the trie it was taken from: %s", f)
+						return
+					}
+					c.Count("forks_changed_on_their_own", 1)
+				}
 			}
 		case x < 93:
 			if !clean {
@@ -259,7 +291,7 @@ func init() {
 			return 16000
 		},
 		Run:    runC09,
-		Floors: map[string]int64{"histories": 15000, "steps": 200000, "commits": 20000, "full_checks": 20000, "gc_passes": 2000, "reloads": 2500, "mutations_after_a_commit": 30000, "delete_absent": 3000, "histories_on_pebble": 100, "puts": 10000, "deletes_via_Delete": 3000, "reloads_via_CopyRoot": 500, "snapshot_checks": 2000, "values_changed_back": 2000},
+		Floors: map[string]int64{"forks_changed_on_their_own": 1500, "histories": 15000, "steps": 200000, "commits": 20000, "full_checks": 20000, "gc_passes": 2000, "reloads": 2500, "mutations_after_a_commit": 30000, "delete_absent": 3000, "histories_on_pebble": 100, "puts": 10000, "deletes_via_Delete": 3000, "reloads_via_CopyRoot": 500, "snapshot_checks": 2000, "values_changed_back": 2000},
 		Assumptions: []string{
 			"weight is a function of the value (the property's domain)",
 			"garbage collection and reload are only issued when the live trie has no uncommitted mutation (GC on a dirty trie belongs to C11)",
